@@ -184,7 +184,7 @@ def _as_array_or_scalar(exprs: Sequence[ScalarExpression],
 def _is_idx_lambda_broadcast_op(expr: IndexLambda,
                                 inner_expr: ScalarExpression) -> bool:
     """
-    :arg inner_expr: *expr.expr* with any type casts dropped.
+    :arg inner_expr: the scalar expression of *expr* to be matched.
     """
     if (isinstance(inner_expr, p.Subscript)
             and isinstance(inner_expr.aggregate, p.Variable)):
@@ -389,11 +389,13 @@ def index_lambda_to_high_level_op(expr: IndexLambda) -> HighLevelOp:
                                   if idx.name in inner_expr.bounds})
                         )
 
-    if _is_idx_lambda_broadcast_op(expr, inner_expr):
-        if isinstance(inner_expr, p.Subscript):
-            return BroadcastOp(expr.bindings[inner_expr.aggregate.name])
+    # A type cast of an operand (i.e. the result of astype()) is not a broadcast:
+    # match on the expression as written, not with casts dropped.
+    if _is_idx_lambda_broadcast_op(expr, expr.expr):
+        if isinstance(expr.expr, p.Subscript):
+            return BroadcastOp(expr.bindings[expr.expr.aggregate.name])
         else:
-            assert isinstance(inner_expr, p.Variable)
-            return BroadcastOp(expr.bindings[inner_expr.name])
+            assert isinstance(expr.expr, p.Variable)
+            return BroadcastOp(expr.bindings[expr.expr.name])
 
     raise UnknownIndexLambdaExpr(inner_expr)
